@@ -14,9 +14,10 @@ NumCat == << Num("-10.5", -105, 1, TRUE), Num("-1", -1, 0, FALSE), Num("-0", 0, 
              Num("0.5", 5, 1, TRUE), Num("1", 1, 0, FALSE), Num("9", 9, 0, FALSE), Num("9.99", 999, 2, TRUE),
              Num("10", 10, 0, FALSE), Num("10.0", 100, 1, TRUE), Num("10.00", 1000, 2, TRUE),
              Num("10.01", 1001, 2, TRUE), Num("10.001", 10001, 3, TRUE), Num("10.5", 105, 1, TRUE),
-             Num("11", 11, 0, FALSE), Num("0.10", 10, 2, TRUE) >>
+             Num("11", 11, 0, FALSE), Num("0.10", 10, 2, TRUE),
+             Num("-0.0", 0, 1, TRUE), Num("0.00", 0, 2, TRUE), Num("-0.00", 0, 2, TRUE), Num("-0.10", -10, 2, TRUE) >>
 \* bounds written in rules (a subset of the catalogue by index)
-BoundIdx == {2, 3, 4, 6, 9, 10, 14}        \* -1, -0, 0, 1, 10, 10.0, 10.5
+BoundIdx == {2, 3, 4, 6, 9, 10, 14, 17}    \* -1, -0, 0, 1, 10, 10.0, 10.5, -0.0
 
 CmpNum(a, b) == LET S == IF a.s > b.s THEN a.s ELSE b.s
                     x == a.m * Pow10(S - a.s)
@@ -32,7 +33,8 @@ IsWhole(n) == FracDigits(n.m, n.s) = 0
 Str(t, len, tags) == [text |-> t, len |-> len, tags |-> tags, kind |-> "str"]
 StrCat == << Str("\"\"", 0, {}), Str("\"a\"", 1, {"has-a", "starts-a", "lower3-"}), Str("\"ab\"", 2, {"has-a", "starts-a", "ends-b"}),
              Str("\"abc\"", 3, {"has-a", "starts-a", "lower3"}), Str("\"a\\nb\"", 3, {"has-a", "starts-a", "ends-b"}),
-             Str("\"\\u0061b\"", 2, {"has-a", "starts-a", "ends-b"}), Str("\"B\"", 1, {}), Str("\"xyzw\"", 4, {}) >>
+             Str("\"\\u0061b\"", 2, {"has-a", "starts-a", "ends-b"}), Str("\"B\"", 1, {}), Str("\"xyzw\"", 4, {}),
+             Str("\"a\\fb\"", 3, {"has-a", "starts-a", "ends-b"}), Str("\"\\u0001\\b\"", 2, {}) >>
 \* patterns (JSON text of the regex rule value) and the tag a string must carry to match
 PatCat == << [text |-> "\"a\"", tag |-> "has-a"], [text |-> "\"^a\"", tag |-> "starts-a"],
              [text |-> "\"b$\"", tag |-> "ends-b"], [text |-> "\"^[a-z]{3}$\"", tag |-> "lower3"] >>
@@ -58,6 +60,7 @@ SatArr(k, R) ==
 \* ---- sanity lemmas that guard against a wrong oracle (checked by TLC as ASSUME)
 ASSUME \A i \in 1..Len(NumCat) : CmpNum(NumCat[i], NumCat[i]) = 0
 ASSUME CmpNum(NumCat[3], NumCat[4]) = 0                 \* -0 = 0
+ASSUME CmpNum(NumCat[17], NumCat[4]) = 0 /\ CmpNum(NumCat[19], NumCat[18]) = 0   \* -0.0 = 0 = 0.00 = -0.00
 ASSUME CmpNum(NumCat[9], NumCat[10]) = 0 /\ CmpNum(NumCat[10], NumCat[11]) = 0    \* 10 = 10.0 = 10.00
 ASSUME CmpNum(NumCat[8], NumCat[9]) = -1 /\ CmpNum(NumCat[12], NumCat[9]) = 1     \* 9.99 < 10 < 10.01
 ASSUME FracDigits(1000, 2) = 0 /\ FracDigits(10, 2) = 1 /\ FracDigits(10001, 3) = 3 /\ FracDigits(0, 0) = 0
